@@ -375,7 +375,21 @@ func c08Lock(c *Ctx, p *Prog, ms map[string]*ssa.Function) {
 			}
 		}
 	}
-	c.Check(okU, "C08-R3", "UnlockCell:force-dirty", p.pos(un.Pos()), "lock cleared together with SetDirty(x,y,true)")
+	// … or does what SetDirty(true) does itself: lastMain = 0 on the very cell whose lock it clears
+	for _, s := range storesTo(un, cellOwner, "lock") {
+		v2, isC2 := constBool(s.Val)
+		if !isC2 || v2 {
+			continue
+		}
+		_, cellOfLock, _ := fieldAddrRef(s.Addr)
+		for _, d := range storesTo(un, cellOwner, "lastMain") {
+			_, cellOfDirty, _ := fieldAddrRef(d.Addr)
+			if k, isK := constInt(d.Val); isK && k == 0 && cellOfLock != nil && (cellOfLock == cellOfDirty || sameValue(cellOfLock, cellOfDirty)) && (instrDominates(s, d) || instrDominates(d, s)) {
+				okU = true
+			}
+		}
+	}
+	c.Check(okU, "C08-R3", "UnlockCell:force-dirty", p.pos(un.Pos()), "lock cleared together with SetDirty(x,y,true) (or lastMain = 0 on the same cell)")
 	// LockCell stores lock=true
 	lk := ms["LockCell"]
 	okL := false
